@@ -167,15 +167,15 @@ func shrinkLines(src, key string, rounds int) string {
 		lines := strings.SplitAfter(src, "\n")
 		var cands []string
 		step := 1
-		if len(lines) > 20 {
-			step = len(lines) / 10
+		if len(lines) > 12 {
+			step = len(lines) / 6
 		}
 		for i := 0; i+step <= len(lines); i += step {
 			c := strings.Join(append(append([]string{}, lines[:i]...), lines[i+step:]...), "")
 			cands = append(cands, c)
 		}
-		if len(cands) > 20 {
-			cands = cands[:20]
+		if len(cands) > 12 {
+			cands = cands[:12]
 		}
 		if len(cands) == 0 {
 			break
@@ -315,7 +315,8 @@ func main() {
 			}
 			if key, detail := verdict(p); key != "" {
 				src := j.src
-				if !seenKey[key] {
+				if !seenKey[key] && len(seenKey) < 2 {
+					// shrink the first instance of at most two kinds per run (each round is a build)
 					seenKey[key] = true
 					src = shrinkLines(src, key, 3)
 				}
